@@ -10,6 +10,7 @@ import (
 	"go/parser"
 	"go/token"
 	"go/types"
+	"sort"
 	"strings"
 
 	"golang.org/x/tools/go/packages"
@@ -17,20 +18,20 @@ import (
 )
 
 type SpecEnv struct {
-	ex    *Exec
-	pkg   *packages.Package
-	pos   token.Pos
-	st    *State
-	old   *State
-	head  *State
-	frame *Frame               // for reading locals (nil at call sites)
-	objs  map[types.Object]Val // explicit bindings (params at call sites, ret0.., captures, bound vars)
-	entry map[types.Object]Val // entry values of parameters (used inside old())
-	inOld bool
-	info  *types.Info
-	loop  *ssa.BasicBlock // loop head for rangeindex lookup
-	label string
-	tparams map[*types.TypeParam]types.Type
+	ex           *Exec
+	pkg          *packages.Package
+	pos          token.Pos
+	st           *State
+	old          *State
+	head         *State
+	frame        *Frame               // for reading locals (nil at call sites)
+	objs         map[types.Object]Val // explicit bindings (params at call sites, ret0.., captures, bound vars)
+	entry        map[types.Object]Val // entry values of parameters (used inside old())
+	inOld        bool
+	info         *types.Info
+	loop         *ssa.BasicBlock // loop head for rangeindex lookup
+	label        string
+	tparams      map[*types.TypeParam]types.Type
 	logicalBound []*Term
 }
 
@@ -828,7 +829,7 @@ func (e *SpecEnv) callFunc(o *types.Func, recv ast.Expr, args []ast.Expr) Val {
 		argTypes = append(argTypes, e.typeOf(a))
 	}
 	full := funcFullName(o)
-	if r, ok := e.ex.modelCall(full, vals, e.state(), nil); ok {
+	if r, ok := e.ex.modelCall(full, vals, e.state(), o.Type().(*types.Signature)); ok {
 		if len(r) == 1 {
 			return r[0]
 		}
@@ -915,7 +916,6 @@ func funcFullName(o *types.Func) string {
 var _ = constant.MakeBool
 var _ = strings.TrimSpace
 
-
 // findEltOffset looks for an address elt(A, off + k) with k the bound variable (coefficient 1) and
 // off free of bound variables; returns off.
 func findEltOffset(t, k *Term) *Term {
@@ -954,14 +954,12 @@ func findEltOffset(t, k *Term) *Term {
 	return found
 }
 
-
 func wrapVals(r []Val) Val {
 	if len(r) == 1 {
 		return r[0]
 	}
 	return &Agg{F: r}
 }
-
 
 // callFuncValue evaluates a call through a function value inside a specification: known closures
 // are unfolded (also through an ite-tree of closure ids); otherwise the call is an uninterpreted
@@ -999,7 +997,27 @@ func (e *SpecEnv) callFuncValue(n *ast.CallExpr, fun ast.Expr, sig *types.Signat
 			}
 			return out
 		}
-		return uf(f)
+		// Not syntactically resolved: case split over the closures of this signature seen so far
+		// (the solver may still prove which one it is, e.g. through a frame axiom).
+		out := uf(f)
+		ids := make([]int, 0, len(closureByID))
+		for id := range closureByID {
+			ids = append(ids, id)
+		}
+		sort.Ints(ids)
+		n := 0
+		for _, id := range ids {
+			c := closureByID[id]
+			if n >= 8 || !sameSig(c.Fn.Signature, sig) {
+				continue
+			}
+			n++
+			r := run(c)
+			for k := range out {
+				out[k] = iteVal(Eq(f, FnPtr(id)), r[k], out[k])
+			}
+		}
+		return out
 	}
 	switch f := fv.(type) {
 	case *FuncVal:
@@ -1026,7 +1044,6 @@ func fnLeaves(t *Term, out map[int64]bool) bool {
 	return false
 }
 
-
 // tryEvalBool evaluates a clause; ok=false when it refers to something not visible here
 // (for instance a callee-local variable at a call site): such a clause is simply not assumed.
 func (e *SpecEnv) tryEvalBool(text string) (t *Term, ok bool) {
@@ -1040,4 +1057,21 @@ func (e *SpecEnv) tryEvalBool(text string) (t *Term, ok bool) {
 		}
 	}()
 	return e.evalBool(text), true
+}
+
+func sameSig(a, b *types.Signature) bool {
+	if a.Params().Len() != b.Params().Len() || a.Results().Len() != b.Results().Len() {
+		return false
+	}
+	for i := 0; i < a.Params().Len(); i++ {
+		if !types.Identical(a.Params().At(i).Type(), b.Params().At(i).Type()) {
+			return false
+		}
+	}
+	for i := 0; i < a.Results().Len(); i++ {
+		if !types.Identical(a.Results().At(i).Type(), b.Results().At(i).Type()) {
+			return false
+		}
+	}
+	return true
 }
